@@ -358,6 +358,14 @@ def oracle(rng, thorough, deep=False, hints=None):
         cases.append(dict(tomo_seed=int(rng.integers(0, 1000)), tomo_shape=tshape, pos=pos, scale=scale,
                           quat=_rand_quat(rng, qk), shape=shape, order=order, corner_safe=cs,
                           chunks=chunks, exact=exact, kind=kind))
+    # identity orientation on integer positions with EVEN box axes: the samples fall between voxels
+    for it in range(12 if (thorough or deep) else 4):
+        tshape = [int(x) for x in rng.integers(20, 30, size=3)]
+        shape = [[8, 8, 8], [6, 7, 7], [7, 7, 10], [4, 6, 5]][it % 4]
+        cases.append(dict(tomo_seed=int(rng.integers(0, 1000)), tomo_shape=tshape,
+                          pos=[float(rng.integers(8, t - 8)) for t in tshape], scale=float([1.0, 0.5][it % 2]),
+                          quat=[0.0, 0.0, 0.0, 1.0], shape=shape, order=int([1, 3][it % 2]), corner_safe=bool(it % 3 == 0),
+                          chunks=None, exact=False, kind="lattice-even"))
     # corner-safe loading of elongated boxes at orientations that are not single-axis rotations
     from scipy.spatial.transform import Rotation
     perm = Rotation.from_rotvec(np.array([1.0, 1.0, 1.0]) / np.sqrt(3) * (2 * np.pi / 3)).as_quat().tolist()
